@@ -1116,4 +1116,51 @@ theorem pooled_session_witness :
 
 end Histories
 
+/-! ## Trailers-Only responses: announced trailer names are not trailers -/
+section TrailersOnly
+
+/-- Names announced in a `Trailer:` header but never sent (keys without values in
+`Response.Trailer`) do not change whether a response is Trailers-Only - wherever they stand. -/
+theorem trailers_only_ignores_announced (traceErr bodyData : Bool) (names names' : List Bytes) (tr : Hdrs) :
+    isTrailersOnly traceErr bodyData (announcedOnly names ++ tr ++ announcedOnly names') =
+      isTrailersOnly traceErr bodyData tr := by
+  have h : ∀ ns : List Bytes, (announcedOnly ns).all (fun kv => kv.2.isEmpty) = true := by
+    intro ns; simp [announcedOnly]
+  simp [isTrailersOnly, List.all_append, h]
+
+/-- Trailers-Only exactly when no error, no body message and no trailer key has a value. -/
+theorem trailers_only_iff (traceErr bodyData : Bool) (tr : Hdrs) :
+    isTrailersOnly traceErr bodyData tr = true ↔
+      traceErr = false ∧ bodyData = false ∧ ∀ kv ∈ tr, kv.2 = [] := by
+  simp [isTrailersOnly, List.isEmpty_iff]
+  constructor
+  · rintro ⟨⟨h1, h2⟩, h3⟩; exact ⟨h1, h3, h2⟩
+  · rintro ⟨h1, h3, h2⟩; exact ⟨⟨h1, h2⟩, h3⟩
+
+/-- A gRPC / gRPC-Web response without body messages and without sent trailers has its status
+examined in the HTTP HEADERS whatever trailer names it announced. -/
+theorem announced_only_examines_headers (names : List Bytes) :
+    statusSource "application/grpc" false false (announcedOnly names) = .headers ∧
+    statusSource "application/grpc+proto" false false (announcedOnly names) = .headers ∧
+    statusSource "application/grpc-web+proto" false false (announcedOnly names) = .headers := by
+  have h := trailers_only_ignores_announced false false names [] []
+  simp only [List.append_nil, announcedOnly, List.map_nil] at h
+  have h0 : isTrailersOnly false false [] = true := by decide
+  have hp1 : ("application/grpc-web".toList.isPrefixOf "application/grpc".toList) = false := by decide
+  have hp2 : ("application/grpc".toList.isPrefixOf "application/grpc".toList) = true := by decide
+  have hp3 : ("application/grpc-web".toList.isPrefixOf "application/grpc+proto".toList) = false := by decide
+  have hp4 : ("application/grpc".toList.isPrefixOf "application/grpc+proto".toList) = true := by decide
+  have hp5 : ("application/grpc-web".toList.isPrefixOf "application/grpc-web+proto".toList) = true := by decide
+  simp only [statusSource, announcedOnly, h, h0, hp1, hp2, hp3, hp4, hp5]
+  simp
+
+/-- discriminating witness: counting KEYS instead of values turns an announcing Trailers-Only
+response into one whose (empty) trailers are examined -/
+theorem announced_trailers_witness :
+    isTrailersOnly false false (announcedOnly [bs "Grpc-Status"]) = true ∧
+    isTrailersOnlyByKeys false false (announcedOnly [bs "Grpc-Status"]) = false ∧
+    isTrailersOnly false false [(bs "Grpc-Status", [bs "0"])] = false := by decide
+
+end TrailersOnly
+
 end ConfModel.Props.C13
